@@ -98,9 +98,9 @@ func (valdec *structDecoder) decodeObject(dec *Decoder, p interface{}) {
 
 func (valdec *structDecoder) decodeMapAsObject(dec *Decoder, p interface{}) {
 	ptr := reflect2.PtrOf(p)
-	count := dec.ReadInt()
+	count := dec.readCount()
 	dec.AddReference(p)
-	for i := 0; i < count; i++ {
+	for i := 0; i < count && dec.Error == nil; i++ {
 		var name string
 		dec.decodeString(stringType, dec.NextByte(), &name)
 		valdec.decodeField(dec, ptr, name)
